@@ -95,7 +95,17 @@ def handlers : List (String × Handler) := [
       | .error _ => pure []
     let items : List (MeasEnc Int) := meas.map (encodeMeas id) ++
       measParsed.map (fun vals => { encodeMeas id vals with numberOfValues := none })
-    let r : Except ErrKind Int := match construct (← getStr j "gtype") finiteTok (← getBool j "double") id gd with
+    -- dtype of the concatenated array: numpy kind letter + item size (the dtype decision is part of the model)
+    let gt ← getStr j "gtype"
+    let built : Except ErrKind (Group Int) ← match j.getObjVal? "kind" with
+      | .ok k => do
+        let kind ← k.getStr?
+        let isz ← getInt j "itemsize"
+        pure (constructDT gt finiteTok kind isz id gd)
+      | .error _ => do
+        let dbl ← getBool j "double"
+        pure (construct gt finiteTok dbl id gd)
+    let r : Except ErrKind Int := match built with
       | .error e => .error e
       | .ok g => match Ann.mapE (fun m => checkMeas m g.enc.numAnn) items with
         | .error e => .error e
@@ -103,6 +113,13 @@ def handlers : List (String × Handler) := [
           | some (ct, _) => .ok ct
           | none => .error .other
     pure (exceptToJson (fun (i : Int) => (i : Json)) r)),
+  ("constructArrs", fun j => do
+    let arrs ← (← getArr j "arrs").toList.mapM (fun a => do
+      match a.getObjVal? "rows" with
+      | .ok rows => do pure (Arr.d2 (← (← rows.getArr?).toList.mapM parseInts))
+      | .error _ => do pure (Arr.d1 (← parseInts (← a.getObjVal? "vals"))))
+    let r := constructArrs (← getStr j "gtype") finiteTok (← getStr j "kind") (← getInt j "itemsize") id arrs
+    pure (exceptToJson (fun (g : Group Int) => encToJson g.enc) r)),
   ("decode", fun j => do
     let r := decode (← getStr j "gtype") (← parseEnc (← j.getObjVal? "enc")) (ctOf (← getStr j "ct"))
     pure (exceptToJson gdataToJson r)),
